@@ -70,7 +70,8 @@ def cases(draw, tier="quick"):
     file_noise = draw(noise()).replace("/", "").replace("\x00", "")[:40]
     kwargs_noise = [draw(noise()) for _ in range(draw(st.integers(0, 2)))] if fw == "custom" else []
     return {"fw": fw, "samples": samples, "file_noise": file_noise, "kwargs_noise": kwargs_noise,
-            "preamble": draw(preambles()), "nested": draw(st.booleans()), "output": draw(st.sampled_from([False, False, True]))}
+            "preamble": draw(preambles()), "nested": draw(st.booleans()), "output": draw(st.sampled_from([False, False, True])),
+            "reuse_cli": draw(st.sampled_from([False, False, True]))}
 
 
 def valid(case):
@@ -113,7 +114,11 @@ def argv_for(case, fname, preamble_mode="given"):
 def run(case, driver, d, argv):
     if driver == "inproc":
         try:
-            return 0, c16.run_in_process(argv, d), ""
+            prior = None
+            if case.get("reuse_cli"):
+                # the Cli object has already served a conversion with another preamble
+                prior = [a for a in argv_for(dict(case, preamble="# EARLIER_PREAMBLE = 1", fw=case["fw"]), argv[2])]
+            return 0, c16.run_in_process(argv, d, prior_argv=prior), ""
         except SystemExit as e:
             return (e.code or 0) or 2, "", "SystemExit"
         except Exception as e:  # noqa: BLE001
@@ -208,6 +213,8 @@ def check_with(case, driver):
                     return r
                 if rest != rest2:
                     r.fail("blank-preamble-changes-output", f"with blank preamble {pre!r}:\n{rest[:800]}\n--- without:\n{rest2[:800]}")
+        if "EARLIER_PREAMBLE" in rest:
+            r.fail("preamble-of-an-earlier-run-appears", out[:1200])
         try:
             pl.load_source(out)
         except Exception as e:  # noqa: BLE001
